@@ -18,8 +18,8 @@
    nothing (Nop, a repeated Initialize, Reopen while the root row is the first row).
    Call hypotheses ([call_pre4]): as in T02Spec.v - plain configuration, record size > 0, not read-only,
    header-block counts >= 1 ([hb_env]), cleaned absolute names ([good]), Remove / RemoveAll not of the root, Rename
-   not onto the root, content sizes below 10^40 - but WITHOUT the CreateFile restriction of T02 (the name is not an
-   existing regular file): contents are right in that corner too (it concerns the modification time only).
+   not onto the root, content sizes below 10^40 - but WITHOUT the CreateFile restriction of T02 (not "nothing is
+   written to an existing empty regular file"): contents are right in that corner too (it concerns the modification time only).
 
    Equality of contents is equality of piece lists everywhere except one corner (T04Counter.v): CreateFile n [] on an
    existing file of size 0 writes nothing, so what is read afterwards is the old zero-length content (possibly a list
